@@ -152,6 +152,18 @@ def lin_failures(sp, dt, aseed):
             y3 = np.array(op(x))
         if not (np.array_equal(y1, y2, equal_nan=True) and np.array_equal(y1, y3, equal_nan=True)) or np.isnan(y1).any():
             out.append("not-reproducible")
+        # ... and an EQUAL input held in another memory layout gives an equal output
+        with warnings.catch_warnings():
+            warnings.simplefilter("ignore")
+            ysc = max(float(np.linalg.norm(np.asarray(y1, dtype=np.complex128).ravel())), scale * float(np.linalg.norm(x.ravel())), 1e-30)
+            for lay in ("fortran", "strided", "reversed"):
+                if lay == "fortran" and x.ndim < 2:
+                    continue
+                x2 = _relayout(x, lay)
+                y4 = np.array(op(x2))
+                if y4.shape != y1.shape or not np.linalg.norm((y4 - y1).astype(np.complex128).ravel()) <= 10 * tol(dt) * ysc:
+                    out.append("equal-input-different-output")
+                    break
     except Exception as e:
         out.append("raises:%s" % type(e.__cause__ or e).__name__)
         return out
